@@ -67,12 +67,35 @@ def visitList {σ : Type} (fb : σ → Nat → BlockHead → M (BlockHead × σ)
     pure (o' :: os', s2)
 end
 
-/-- Stateless map over all objects. -/
+/- Stateless pre-order map over all objects (the traversal of `recurse_objects_mut` when the
+   callback keeps no state): block heads through `fb`, every other object through `fl`; the first
+   failure in pre-order stops the walk. -/
+mutual
+def mapObj (fb : BlockHead → M BlockHead) (fl : Object → M Object) : Object → M Object
+  | .block h os =>
+    match fb h with
+    | .error e => .error e
+    | .ok h' =>
+      match mapObjs fb fl os with
+      | .error e => .error e
+      | .ok os' => .ok (.block h' os')
+  | .register r => fl (.register r)
+  | .command c => fl (.command c)
+  | .buffer b => fl (.buffer b)
+  | .ref r => fl (.ref r)
+def mapObjs (fb : BlockHead → M BlockHead) (fl : Object → M Object) : List Object → M (List Object)
+  | [] => .ok []
+  | o :: os =>
+    match mapObj fb fl o with
+    | .error e => .error e
+    | .ok o' =>
+      match mapObjs fb fl os with
+      | .error e => .error e
+      | .ok os' => .ok (o' :: os')
+end
+
 def mapObjects (fb : BlockHead → M BlockHead) (fl : Object → M Object) (os : List Object) :
-    M (List Object) := do
-  let (os', _) ← visitList (σ := Unit) (fun s _ h => do pure (← fb h, s))
-    (fun s _ o => do pure (← fl o, s)) 0 () os
-  pure os'
+    M (List Object) := mapObjs fb fl os
 
 /- Pre-order list of all objects with their depth (a block appears before its children). -/
 mutual
